@@ -307,3 +307,7 @@ def run(ck):
 # session 5 (round 9, D24)
 EXPLANATION = EXPLANATION + " " + (
     "FIELD/copy-identity (shared with C14): a copy taken at a flush point has the source's bit buffer, bit count and every other state field.")
+
+# session 5 (round 11)
+EXPLANATION = EXPLANATION + " " + (
+    'Flush-variant pins (round 11): a compress function distinguishes only the flush values its reference distinguishes (Z_NO_FLUSH and Z_FINISH); treating another flush value specially changes what a flush point leaves undecodable.')
